@@ -50,10 +50,13 @@ def _float_problem(job):
     exec("def poly(x, %s):\n    return %s\n" % (", ".join("%s=1.0" % nm for nm in names), " + ".join("%s * x**%d" % (nm, k) for k, nm in enumerate(names))), ns)
     fit = XYFit([x, d], ns["poly"], minimizer=job["backend"])
     fit.add_error("y", sig)
-    fit.add_error("y", s_sh, correlation=rho)
+    if job.get("matrix"):      # the same correlated source given as an explicit covariance matrix
+        fit.add_matrix_error("y", s_sh ** 2 * (np.full((n, n), rho) + np.eye(n) * (1 - rho)), "cov")
+    else:
+        fit.add_error("y", s_sh, correlation=rho)
     fixed = []
     if job["fix"]:
-        fixed = [int(rng.randint(0, deg + 1))]
+        fixed = [deg if job.get("fix_last") else int(rng.randint(0, deg + 1))]
         fit.fix_parameter(names[fixed[0]], float(p_true[fixed[0]]))
     rows, rvals, rcov = [], [], []
     if job["con"]:
@@ -89,6 +92,14 @@ def _float_problem(job):
         if not np.allclose(pc, cov, rtol=0.03, atol=3e-3 * float(np.max(np.abs(cov)))):
             issues.append(dict(kind="violation", step=0, kf=None, signature="GLS (float problems): covariance differs from (W^T V^-1 W)^-1 [%s]" % job["backend"],
                                detail=dict(job=job, expected=cov.tolist(), actual=pc.tolist())))
+        elif job.get("asym"):
+            # a quadratic cost: the asymmetric uncertainties are +- the symmetric ones
+            asym = fit.asymmetric_parameter_errors
+            if asym is not None:
+                got = np.asarray(asym, dtype=float)[free]
+                if not np.allclose(-got[:, 0], sd, rtol=0.04, atol=1e-9 * unit) or not np.allclose(got[:, 1], sd, rtol=0.04, atol=1e-9 * unit):
+                    issues.append(dict(kind="violation", step=0, kf=None, signature="GLS (float problems): asymmetric uncertainties differ from +- sqrt(diag((W^T V^-1 W)^-1)) [%s]" % job["backend"],
+                                       detail=dict(job=job, expected=sd.tolist(), actual=got.tolist())))
     return issues
 
 
@@ -114,8 +125,8 @@ def run(tier, seed, faults=(), prop="C05", what=("gls",)):
     cm.report_issues(rep, "GenScenario", jobs, res, "grid scenarios")
     evals = len(jobs)
     if prop == "C05":
-        fj = [dict(seed=seed * 1000 + k, deg=1 + k % 2, backend="iminuit" if k % 4 else "scipy", fix=(k % 3 == 0), con=(k % 5 == 0),
-                   unit_exp=(-5 if (k % 4 and k % 7 == 1) else 0), steps=[])
+        fj = [dict(seed=seed * 1000 + k, deg=(2 if k % 6 == 0 else 1 + k % 2), backend="iminuit" if k % 4 else "scipy", fix=(k % 3 == 0), con=(k % 5 == 0),
+                   unit_exp=(-5 if (k % 4 and k % 7 == 1) else 0), matrix=(k % 2 == 1), asym=(k % 3 != 1), fix_last=(k % 6 == 0), steps=[])
               for k in range(160 if tier == "quick" else 1500)]
         res = replay_parallel(fj, _float_problem, chunk=5)
         cm.report_issues(rep, "float", fj, res, "random correlated problems (float reference)")
